@@ -210,6 +210,15 @@ def percolating_network(crys, chem, rng, maxshell=3, maxjumps=60):
         nj = sum(len(t) for t in jn)
         if nj == 0: continue
         if nj > maxjumps: break
+        # the sites must form ONE connected network (otherwise the chain is not ergodic and the calculators' assumption of a
+        # single equilibrium mode fails: GFcalc raises "Problem isotropizing D?"), and it must percolate in every direction
+        comp = list(range(N))
+        def find(a):
+            while comp[a] != a: a = comp[a]
+            return a
+        for t in jn:
+            for (i, j), dx in t: comp[find(i)] = find(j)
+        if len({find(a) for a in range(N)}) != 1: continue
         rho = np.ones(N) / N
         D = exact_unitcell_D(N, jn, rho, [[1.0] * len(t) for t in jn], crys.dim)
         if np.linalg.eigvalsh(0.5 * (D + D.T)).min() > 1e-6:
